@@ -211,7 +211,10 @@ def build_world(ctx, k, nsock):
         k.dirs[f"/proc/{pid}/fd"] = [str(fd) for fd in fds]
         for fd, tg in fds.items():
             if tg == "file":
-                k.links[f"/proc/{pid}/fd/{fd}"] = "/data/file"
+                # an ordinary file -- possibly one whose NAME contains the text of a socket link ("socket:[<inode of socket 0>]"): holding
+                # it does not make the process a holder of that socket
+                decoy = pid == 10 and fd == 4 and ctx.flag("file_named_like_a_socket_link")
+                k.links[f"/proc/{pid}/fd/{fd}"] = f"/data/socket:[{socks[0]['inode']}]" if decoy else "/data/file"
             else:
                 k.links[f"/proc/{pid}/fd/{fd}"] = f"socket:[{socks[tg]['inode']}]"
                 holders[(pid, fd)] = socks[tg]["inode"]
